@@ -61,6 +61,9 @@ func main() {
 		func() {
 			defer func() {
 				if r := recover(); r != nil {
+					if os.Getenv("GMSMCHECK_DEBUG") != "" {
+						panic(r)
+					}
 					c.Undecided("checker-panic", "-", fmt.Sprint(r), "the checker itself panicked; treated as failure", 0)
 				}
 			}()
